@@ -185,7 +185,8 @@ fn is_mutation(label: &str, fields: &Fields) -> bool {
         "F_Lock" | "F_Decide" | "V_Notify" | "E_HeadCheck" | "V_Scan" | "R_Read" | "VC_Load" |
         "VC_Get" | "VC_Claim" | "XF_AdvExec" | "XF_PubLoad1" | "XF_PubLoad2" | "XF_CurLoad" |
         "XF_CurExec" | "XF_CurReload" | "T_LowerLoad" | "T_UnconfLoad" | "DN_Load" |
-        "HE_Snapshot" | "CB_Lookup" | "CS_Lookup" | "CS_Known" | "M_Post" | "M_Path" => false,
+        "HE_Snapshot" | "CB_Lookup" | "CS_Lookup" | "CS_Known" | "M_Post" | "M_Path" | "TW_Loop" |
+        "TC_Poll" | "W_LoopRead" | "W_Check" => false,
         "W_ValClaim" => get("idx") != Some(Val::N),
         "D_Next" => {
             // `next()` performs a fetch_add whenever the loaded index was below the block size;
@@ -330,8 +331,28 @@ impl Controller {
     }
 
     fn record_of(st: &State) -> RunRecord {
+        // Replace process addresses of wait slots by the role that registered them (a slot may be
+        // notified before its owner registers, so this is done once the run is over).
+        let events = st
+            .log
+            .iter()
+            .map(|e| {
+                let mut e = e.clone();
+                for (k, v) in e.fields.iter_mut() {
+                    if *k == "slot" &&
+                        let Val::I(a) = v
+                    {
+                        *v = st
+                            .slot_names
+                            .get(&(*a as usize))
+                            .map_or(Val::S("unregistered".into()), |n| Val::S(n.clone()));
+                    }
+                }
+                e
+            })
+            .collect();
         RunRecord {
-            events: st.log.clone(),
+            events,
             schedule: st.schedule.clone(),
             choices: st.choices.clone(),
             steps: st.steps,
@@ -532,19 +553,6 @@ impl Hooks for Controller {
         {
             st.slot_names.insert(*slot as usize, thread.clone());
         }
-        // Replace process addresses of wait slots by the role that registered them.
-        let fields = fields
-            .into_iter()
-            .map(|(k, v)| match (&k, &v) {
-                (&"slot", Val::I(a)) => (
-                    k,
-                    st.slot_names
-                        .get(&(*a as usize))
-                        .map_or(Val::S("unregistered".into()), |n| Val::S(n.clone())),
-                ),
-                _ => (k, v),
-            })
-            .collect();
         st.log.push(Event { thread, group, label, fields });
     }
 
@@ -637,9 +645,10 @@ impl Hooks for Controller {
     }
 
     fn lock_released(&self, id: usize) {
+        // A release only matters to lock waiters (enabled through the lock table), so it does not
+        // count as a state change that would keep a polling thread awake.
         let mut st = self.state.lock().unwrap();
         st.locks.remove(&id);
-        st.epoch += 1;
     }
 
     fn slot_register(&self, slot: usize) {
